@@ -88,29 +88,39 @@ class ClassBuilder:
     return out
 
   def lsel_leaf(self, w, env):
-    """element of a list of signals selected by a constant, a loop variable or a signal, adapted to width w"""
+    """element of a (1-D or 2-D) list of signals selected by constants, a loop variable or signals; a Bits leaf of
+    it (field path for struct elements), optionally sliced, adapted to width w"""
     d = self.draw
-    cands = [l for l in self.lists if l[3][0] == "b"]
-    inst, base, cnt, t = d(st.sampled_from(cands))
-    iw = cnt.bit_length() - 1
-    if (1 << iw) == cnt and iw >= 1 and d(st.integers(0, 2)) > 0:
-      idx = self.expr(iw, env, 3)
-    elif env.get("lv") and any(c <= cnt for _, c in env["lv"]) and d(st.booleans()):
-      idx = ["lv", [n for n, c in env["lv"] if c <= cnt][0]]
+    inst, base, dims, t = d(st.sampled_from(self.lists))
+    dl = dims if isinstance(dims, list) else [dims]
+    idxs = []
+    for cnt in dl:
+      iw = cnt.bit_length() - 1
+      if (1 << iw) == cnt and iw >= 1 and d(st.integers(0, 2)) > 0:
+        idxs.append(self.expr(iw, dict(env, no_lsel=True), 3))
+      elif env.get("lv") and any(c <= cnt for _, c in env["lv"]) and d(st.booleans()):
+        idxs.append(["lv", [n for n, c in env["lv"] if c <= cnt][0]])
+      else:
+        idxs.append(["lit", d(st.integers(0, cnt - 1))])
+    fld = None
+    ew = None
+    if t[0] == "s":
+      fld, lt = d(st.sampled_from(leaves_of_type(t)))
+      ew = lt[1]
     else:
-      idx = ["lit", d(st.integers(0, cnt - 1))]
-    e = ["lsel", mkref(base, inst=inst), cnt, idx]
-    ew = t[1]
+      ew = t[1]
+    head = ["lsel", mkref(base, inst=inst), dims, idxs if isinstance(dims, list) else idxs[0]]
     if ew > w and d(st.booleans()):
       lo = d(st.integers(0, ew - w))
-      return ["lsel", mkref(base, inst=inst), cnt, idx, [lo, lo + w]]       # s.xs[idx][lo:hi]
+      return head + [[lo, lo + w], fld]
+    e = head + [None, fld]
     if ew == w: return e
     if ew > w: return ["trunc", e, w]
     return [d(st.sampled_from(["zext", "sext"])), e, w]
 
   def leaf(self, w, env):
     d = self.draw
-    if self.lists and not env.get("no_lsel") and d(st.integers(0, 7)) == 0 and any(l[3][0] == "b" for l in self.lists):
+    if self.lists and not env.get("no_lsel") and d(st.integers(0, 7)) == 0:
       return self.lsel_leaf(w, env)
     srcs = self.bits_sources()
     tmps = [(n, tw) for n, tw in env.get("tmps", [])]
@@ -203,18 +213,6 @@ class ClassBuilder:
             # out-of-range values when n is a power of two
             return ["bit", ref, self.expr(iw, env, depth + 1)]
           return ["bit", ref, ["lit", d(st.integers(0, sw - 1))]]
-    if self.lists and k >= 13 and d(st.booleans()):
-      cands = [l for l in self.lists if l[3][0] == "b" and l[3][1] == w]
-      if cands:
-        inst, base, cnt, t = d(st.sampled_from(cands))
-        iw = cnt.bit_length() - 1
-        if (1 << iw) == cnt and iw >= 1 and d(st.booleans()):
-          idx = self.expr(iw, env, depth + 1)
-        elif env.get("lv") and d(st.booleans()) and any(c <= cnt for _, c in env["lv"]):
-          idx = ["lv", [n for n, c in env["lv"] if c <= cnt][0]]
-        else:
-          idx = ["lit", d(st.integers(0, cnt - 1))]
-        return ["lsel", mkref(base, inst=inst), cnt, idx]
     if k < 9:
       op = d(st.sampled_from(["+", "-", "*", "&", "|", "^", "+", "-", "&", "|", "^"]))
       a = self.expr(w, env, depth + 1)
@@ -509,21 +507,27 @@ class ClassBuilder:
         self.uu.append([d(st.sampled_from(prior)), gnames[0]])
 
   def step_list(self):
-    """a new list of 2-4 Bits signals, every element driven separately"""
+    """a new 1-D or 2-D list of signals (Bits, sometimes a flat struct), every element driven separately"""
     d = self.draw
-    cnt = d(st.sampled_from([2, 2, 3, 4]))
+    dims = d(st.sampled_from([2, 2, 3, 4, [2, 2], [2, 3], [3, 2]]))
     t = ["b", W(d, self.opts)]
+    if self.opts["structs"] is True and d(st.integers(0, 3)) == 0:
+      cand = small_struct(d)
+      if _flat(cand): t = cand
     kind = d(st.sampled_from(["w", "out"]))
     base = self.fresh("lw" if kind == "w" else "lout")
     parts = []
-    for i in range(cnt):
-      n = f"{base}[{i}]"
+    names = []
+    import itertools
+    for idx in itertools.product(*[range(k) for k in (dims if isinstance(dims, list) else [dims])]):
+      n = base + "".join(f"[{i}]" for i in idx)
+      names.append(n)
       if kind == "w": self.wires.append([n, t])
       else: self.ports.append([n, "out", t])
       parts.extend(self.parts_of(n, t))
     self.drive(parts)
-    for i in range(cnt): self.avail.append((mkref(f"{base}[{i}]"), t))
-    self.lists.append(("", base, cnt, t))
+    for n in names: self.avail.append((mkref(n), t))
+    self.lists.append(("", base, dims, t))
 
   def step_pack(self):
     """a Bits signal that receives the whole packed value of a struct-typed signal (s.flat @= s.in_)"""
@@ -572,9 +576,11 @@ class ClassBuilder:
     for n, dr, t in c["ports"]:
       if dr == "out":
         self.avail.append((mkref(n, inst=iname), t))
-        if "[" in n: groups.setdefault(n.split("[", 1)[0], []).append(t)
-    for base, ts in groups.items():
-      self.lists.append((iname, base, len(ts), ts[0]))
+        if "[" in n: groups.setdefault(n.split("[", 1)[0], []).append((n, t))
+    for base, nts in groups.items():
+      tuples = [tuple(int(x) for x in n.split("[", 1)[1].rstrip("]").split("][")) for n, _ in nts]
+      dims = [max(t_[k] for t_ in tuples) + 1 for k in range(len(tuples[0]))]
+      self.lists.append((iname, base, dims if len(dims) > 1 else dims[0], nts[0][1]))
 
   def _child_in_parts(self, iname, n, t):
     d = self.draw
@@ -594,11 +600,13 @@ class ClassBuilder:
         t = small_struct(d)                        # struct types only on top-level input ports
       self.ports.append([n, "in", t]); self.avail.append((mkref(n), t))
     if o["lists"] and d(st.integers(0, 4)) == 0:
-      cnt = d(st.sampled_from([2, 3, 4])); t = ["b", W(d, o)]
+      dims = d(st.sampled_from([2, 3, 4, [2, 2], [2, 3]])); t = ["b", W(d, o)]
       base = self.fresh("lin")
-      for i in range(cnt):
-        self.ports.append([f"{base}[{i}]", "in", t]); self.avail.append((mkref(f"{base}[{i}]"), t))
-      self.lists.append(("", base, cnt, t))
+      import itertools
+      for idx in itertools.product(*[range(k) for k in (dims if isinstance(dims, list) else [dims])]):
+        n = base + "".join(f"[{i}]" for i in idx)
+        self.ports.append([n, "in", t]); self.avail.append((mkref(n), t))
+      self.lists.append(("", base, dims, t))
     if o["reset"] and d(st.integers(0, 3)) == 0:
       self.avail.append((mkref("reset"), ["b", 1]))
     # registers (available from the start)
